@@ -234,7 +234,11 @@ def h_generate(ctx):
     from joserfc.jwk import JWKRegistry, OctKey, RSAKey, ECKey, OKPKey, KeySet
     kt, arg = ctx.choose("kind", GEN)
     via = ctx.choose("via", ["JWKRegistry.generate_key", "Class.generate_key", "KeySet.generate_key_set", "public-only"])
-    n = (8 if arg == 1024 else 3) if kt == "RSA" else 64
+    # extra parameters for the generated keys: none, or ONE dict object the caller keeps and passes for every key (a template)
+    alg_for = {"oct": {64: "HS512", 128: "A128KW", 256: "HS512", 512: "A128GCM"}.get(arg, "HS256"), "RSA": "RS256", "EC": "ES256", "OKP": "EdDSA"}[kt]
+    pkind = ctx.choose("parameters", ["none", "one shared dict", "one shared dict naming an alg"])
+    template = None if pkind == "none" else ({"use": "sig" if kt != "oct" else "enc"} if pkind == "one shared dict" else {"alg": alg_for})
+    n = (8 if arg == 1024 else 3) if kt == "RSA" else (64 if pkind == "none" else 8)
     seam.install()
     start = seam.begin_call("gen")
     refused = None
@@ -242,15 +246,15 @@ def h_generate(ctx):
         keys = []
         cls = {"oct": OctKey, "RSA": RSAKey, "EC": ECKey, "OKP": OKPKey}[kt]
         if via == "JWKRegistry.generate_key":
-            keys = [JWKRegistry.generate_key(kt, arg) for _ in range(n)]
+            keys = [JWKRegistry.generate_key(kt, arg, template) for _ in range(n)]
         elif via == "Class.generate_key":
-            keys = [cls.generate_key(arg, auto_kid=True) for _ in range(n)]
+            keys = [cls.generate_key(arg, template, auto_kid=True) for _ in range(n)]
         elif via == "KeySet.generate_key_set":
-            keys = [k for _ in range(max(1, n // 4)) for k in KeySet.generate_key_set(kt, arg, count=4).keys]
+            keys = [k for _ in range(max(1, n // 4)) for k in KeySet.generate_key_set(kt, arg, template, count=4).keys]
         else:
             if kt == "oct":
                 return Outcome("n/a", [], nontrivial=None)
-            keys = [cls.generate_key(arg, private=False) for _ in range(n)]
+            keys = [cls.generate_key(arg, template, private=False) for _ in range(n)]
     except ValueError as e:
         refused = e       # a size the backend does not offer may be refused, it must not silently become another size
     finally:
@@ -266,6 +270,18 @@ def h_generate(ctx):
     mats = [material(k) for k in keys]
     if len({m[0] for m in mats}) != len(mats) and not (kt == "oct" and arg < 64):
         vs.append(viol(f"generated {kt} keys are not pairwise distinct ({via})", f"{arg}: {len({m[0] for m in mats})} distinct of {len(mats)}"))
+    # what leaves the library must be as distinct as the keys are: the JWK, the thumbprint, the kid
+    if not (kt == "oct" and arg < 64):
+        exported = [call(lambda k=k: json.dumps(k.as_dict(), sort_keys=True)) for k in keys]
+        shown = [e.value for e in exported if e.ok]
+        tps = [call(k.thumbprint) for k in keys]
+        if len(shown) != len(keys) or len(set(shown)) != len(shown):
+            vs.append(viol(f"the JWKs of generated {kt} keys are not pairwise distinct ({via}, parameters: {pkind})", f"{arg}: {len(set(shown))} distinct exports of {len(keys)} keys"))
+        if len({t.value for t in tps if t.ok}) != len(keys):
+            vs.append(viol(f"the thumbprints of generated {kt} keys are not pairwise distinct ({via}, parameters: {pkind})", f"{arg}"))
+        for k, e in zip(keys, exported):
+            if e.ok and kt == "oct" and len(b64.dec(json.loads(e.value)["k"])) * 8 != arg:
+                vs.append(viol("generated oct key has the wrong size", f"{arg} asked, exported k has {len(b64.dec(json.loads(e.value)['k'])) * 8} bits (parameters {template})"))
     for k, (m, sz) in zip(keys, mats):
         if kt == "oct":
             if sz != arg:
@@ -283,7 +299,7 @@ def h_generate(ctx):
             vs.append(viol("generate_key returns a public-only key", f"{kt} {arg}"))
     if insecure:
         vs.append(viol("an insecure generator is used while generating keys", repr(sorted(set(insecure)))))
-    return Outcome(f"{kt}:{'ok' if not vs else 'bad'}", vs, nontrivial=(kt, arg, via), n=len(keys))
+    return Outcome(f"{kt}:{'ok' if not vs else 'bad'}", vs, nontrivial=(kt, arg, via, pkind), n=len(keys))
 
 
 CHILD = r'''
